@@ -276,6 +276,9 @@ def trace_all(env):
     tr["mxmpot"] = trace_mx_potential(env, "maxwell_mfield_potential")
     tr["mxefar"] = trace_mx_potential(env, "maxwell_efield_far_field")
     tr["mxmfar"] = trace_mx_potential(env, "maxwell_mfield_far_field")
+    # densities supported on element 1 only (position 0 in the support list != element index 1), as for segment spaces
+    tr["mxepotseg"] = trace_mx_potential(env, "maxwell_efield_potential", support=(1,))
+    tr["mxmpotseg"] = trace_mx_potential(env, "maxwell_mfield_potential", support=(1,))
     return tr, dict(Tg=Tg, Sg=Sg, Tt=Tt, Ss=Ss)
 
 
@@ -431,7 +434,7 @@ class Pool:
 
 
 POOLS = {"Reg": ("mxe", "mxeloc", "gv0", "gv1"), "MReg": ("mxmloc",), "Sing": ("mxes", "mxms", "gv0s", "gv1s"),
-         "TwoE": ("mxedis",), "TwoM": ("mxmdis",), "Pot": ("mxepot", "mxmpot", "mxefar", "mxmfar")}
+         "TwoE": ("mxedis",), "TwoM": ("mxmdis",), "Pot": ("mxepot", "mxmpot", "mxefar", "mxmfar", "mxepotseg", "mxmpotseg")}
 
 
 class Emitter:
@@ -821,6 +824,7 @@ def generate(env=None):
             taux, px = divmod(x, NQ)
             X = f"(fun c => pt Vt Jt elemsT {taux} c (qu {px}) (qv {px}))"
             te, tm, fe, fm = [], [], [], []
+            te_s, tm_s = [], []
             for sig in range(2):
                 for q_ in range(NQ):
                     y = 20 + sig * NQ + q_
@@ -832,10 +836,15 @@ def generate(env=None):
                     tm.append(f"mfieldPotTerm {KK} {G(10 + x, y)} (dst {10 + x} {y}) {X} {Y} {F} {d}")
                     fe.append(f"efieldFarTerm {KK} {G(10 + x, y)} {X} {F} {Dv} {d}")
                     fm.append(f"mfieldFarTerm {KK} {G(10 + x, y)} {X} {F} {d}")
+                    if sig == 1:
+                        te_s.append(te[-1])
+                        tm_s.append(tm[-1])
             for fam, name, terms in (("mxepot", "mx_potential_efield_closed_form", te),
                                      ("mxmpot", "mx_potential_mfield_closed_form", tm),
                                      ("mxefar", "mx_potential_efield_far_field_closed_form", fe),
-                                     ("mxmfar", "mx_potential_mfield_far_field_closed_form", fm)):
+                                     ("mxmfar", "mx_potential_mfield_far_field_closed_form", fm),
+                                     ("mxepotseg", "mx_potential_efield_segment_closed_form", te_s),
+                                     ("mxmpotseg", "mx_potential_mfield_segment_closed_form", tm_s)):
                 em.add("MaxwellPotential", f"{name}_{d}_{x}", f"{em.cp(fam, d, x)}\n      = {csum(terms)}",
                        simp_ring(em.unfold(fam, d, x)))
     imports = write_groups(em, trace_mods, changed)
